@@ -31,6 +31,7 @@ type HarnessSpec struct {
 	MaxPaths  int64    `json:"max_paths,omitempty"`
 	WallS     int      `json:"wall_s,omitempty"`
 	Footprint bool     `json:"footprint,omitempty"`
+	Merge     bool     `json:"merge,omitempty"`
 	Bound     string   `json:"bound"`
 	Workers   int      `json:"workers,omitempty"`
 }
@@ -141,7 +142,7 @@ func load() (*symx.Program, map[string]string, error) {
 }
 
 func defaults(h *HarnessSpec) symx.Options {
-	o := symx.Options{Workers: h.Workers, Solver: h.Solver, TimeoutMs: h.TimeoutMs, MaxSteps: h.MaxSteps, MaxPaths: h.MaxPaths, Footprint: h.Footprint}
+	o := symx.Options{Workers: h.Workers, Solver: h.Solver, TimeoutMs: h.TimeoutMs, MaxSteps: h.MaxSteps, MaxPaths: h.MaxPaths, Footprint: h.Footprint, Merge: h.Merge}
 	if o.Solver == "" {
 		o.Solver = "z3"
 	}
@@ -224,6 +225,7 @@ func cmdRun(args []string) int {
 	maxp := fs.Int64("maxpaths", 0, "path budget")
 	steps := fs.Int64("steps", 20000000, "instruction budget per path")
 	foot := fs.Bool("footprint", false, "log footprints")
+	merge := fs.Bool("merge", false, "guarded merging of pure regions")
 	verbose := fs.Bool("v", false, "progress")
 	replay := fs.Bool("replay", true, "replay violations natively")
 	known := fs.String("known", "", "comma-separated known-finding ids to treat as live")
@@ -243,7 +245,7 @@ func cmdRun(args []string) int {
 		fmt.Fprintln(os.Stderr, "no such harness:", *name)
 		return 2
 	}
-	o := symx.Options{Workers: *workers, Solver: *solver, TimeoutMs: *tmo, MaxSteps: *steps, MaxPaths: *maxp, MaxViolations: *maxv, Verbose: *verbose, Footprint: *foot}
+	o := symx.Options{Workers: *workers, Solver: *solver, TimeoutMs: *tmo, MaxSteps: *steps, MaxPaths: *maxp, MaxViolations: *maxv, Verbose: *verbose, Footprint: *foot, Merge: *merge}
 	hr := P.Explore(fn, o)
 	printResult(hr)
 	rc := 0
